@@ -99,4 +99,36 @@ theorem missing_end_to_end {α} (N : Num α) (m : Model) (π : DepOrder) (rank :
   exact GenValidMissing.genMissing_correct N m π req L p inp t ρ s' hwf hcover hreq hdefd hL hp hsol hx
 
 end EndToEnd
+
+namespace SchemeEndToEnd
+open Impl Kahn GenValid GenValidRL
+
+/-- **C12 for `monitor_values` on the `Impl` layer**: with and without removal of unused parameters the program writes
+the same value into every monitor slot. -/
+theorem genMonitor_removal_invariant {α} (N : Num α) (m : Model) (π : DepOrder) (L : Layout) (p0 p1 : List Stmt)
+    (inp : Inputs α) (t : α) (ρ : Env α) (s0 s1 : St α)
+    (hwf : ModelWF m) (hπ : ∀ a ∈ m.assigns, ∀ y ∈ fv a.2, y ∈ π a.1 a.2)
+    (hL : layout m π = some L) (hp0 : genMonitor m π false = some p0) (hp1 : genMonitor m π true = some p1)
+    (hsol : Solution N m L inp t ρ)
+    (hx0 : exec N inp (initRhs t) p0 = some s0) (hx1 : exec N inp (initRhs t) p1 = some s1) :
+    ∀ i x, L.monitor[i]? = some x → s0.result i = s1.result i := by
+  intro i x hix
+  rw [(GenValidMon.genMonitor_correct N m π false L p0 inp t ρ s0 hwf hπ hL hp0 hsol hx0 i x hix).2,
+      (GenValidMon.genMonitor_correct N m π true L p1 inp t ρ s1 hwf hπ hL hp1 hsol hx1 i x hix).2]
+
+/-- **a step of size zero gives the states back** (C05: "with dt = 0 the input states are returned"; also what C04's
+slot check observes on the real code) -/
+theorem genEuler_dt_zero {α} (N : Num α) (z : α) (hz : C05.ZeroLaws N z) (m : Model) (π : DepOrder) (ru : Bool) (L : Layout)
+    (p : List Stmt) (inp : Inputs α) (t : α) (ρ : Env α) (s' : St α)
+    (hwf : ModelWF m) (hπ : ∀ a ∈ m.assigns, ∀ y ∈ fv a.2, y ∈ π a.1 a.2)
+    (hdtn : "dt" ∉ m.stateNames ∧ "dt" ∉ m.paramNames ∧ "dt" ∉ m.assignNames ∧ "dt" ∉ missingVariables m)
+    (hL : layout m π = some L) (hp : genEuler m π ru = some p)
+    (hsol : Solution N m L inp t ρ) (hdt : ρ "dt" = some z)
+    (hx : exec N inp (initScheme t z) p = some s') :
+    ∀ i X, L.state[i]? = some X → s'.result i = inp .states i := by
+  intro i X hiX
+  obtain ⟨d, x, f, _, hx', _, hres⟩ := genEuler_correct N m π ru L p inp t z ρ s' hwf hπ hdtn hL hp hsol hdt hx i X hiX
+  rw [hres, hx', C05.euler_dt_zero N z hz x f]
+
+end SchemeEndToEnd
 end Gx
